@@ -10,7 +10,8 @@ for p in props:
     pid = p["id"]
     path = os.path.join(ROOT, "hv", "props", pid.lower() + ".py")
     meta = None
-    if os.path.exists(path):
+    ONLY = os.environ.get("HV_MANIFEST_ONLY")
+    if os.path.exists(path) and (not ONLY or pid in ONLY.split(",")):
         tree = ast.parse(open(path).read())
         for n in tree.body:
             if isinstance(n, ast.Assign) and getattr(n.targets[0], "id", None) == "META":
